@@ -205,10 +205,15 @@ theorem addFlag_effect (ids : List MessageId) (flag : FlagVal) (db db' : DB)
           · exact Or.inl h1
           · exact Or.inr ⟨p.1, h1, by rw [← h2]⟩
 
-/-- `tx.RemoveFlagFromMessages(ids, flag)`: the rows `(m, flag)`, `m ∈ ids`, with EXACTLY this spelling go -/
+theorem toLower_eq_lower (s : String) : s.toLower = MailboxRef.lower s := by
+  unfold String.toLower MailboxRef.lower
+  rw [← String.toList_map, String.ofList_toList]
+
+/-- `tx.RemoveFlagFromMessages(ids, flag)`: the rows `(m, g)`, `m ∈ ids`, `g` = `flag` in ANY spelling go
+    (`COLLATE NOCASE` since gluon 45f4598) -/
 theorem removeFlag_effect (ids : List MessageId) (flag : FlagVal) (db db' : DB)
     (h : DB.removeFlagFromMessages factSites ids flag db = .ok ((), db')) :
-    SameButFlags db db' ∧ ∀ p, p ∈ db'.msgFlags ↔ p ∈ db.msgFlags ∧ ¬(p.1 ∈ ids ∧ p.2 = flag) := by
+    SameButFlags db db' ∧ ∀ p, p ∈ db'.msgFlags ↔ p ∈ db.msgFlags ∧ ¬(p.1 ∈ ids ∧ MailboxRef.lower p.2 = MailboxRef.lower flag) := by
   rw [C08.chunk_faithful_removeFlagFromMessages] at h
   rcases guarded_ok _ _ _ _ h with ⟨h1, h2⟩ | ⟨_, h2⟩
   · subst h1; subst h2; exact ⟨SameButFlags.refl _, by simp⟩
@@ -218,7 +223,7 @@ theorem removeFlag_effect (ids : List MessageId) (flag : FlagVal) (db db' : DB)
     refine ⟨⟨rfl, rfl, rfl, rfl⟩, ?_⟩
     intro p
     simp only [List.mem_filter, Bool.not_eq_true', Bool.and_eq_false_imp, List.contains_iff_mem, beq_eq_false_iff_ne, ne_eq,
-      and_congr_right_iff]
+      and_congr_right_iff, toLower_eq_lower]
     intro _
     constructor
     · rintro h1 ⟨h2, h3⟩; exact h1 h2 h3
